@@ -419,7 +419,18 @@ func errselMain(s *simrt.Sim, info *harness.RunInfo) {
 					rq.err = map[int]*fiber.Error{400: fiber.ErrBadRequest, 401: fiber.ErrUnauthorized, 403: fiber.ErrForbidden, 404: fiber.ErrNotFound, 405: fiber.ErrMethodNotAllowed, 502: fiber.ErrBadGateway}[op.code]
 				}
 				reqs = append(reqs, rq)
-				resp := conns[b].Do(harness.Req{Method: op.method, Path: op.path, Headers: [][2]string{{"X-Op", strconv.Itoa(len(reqs) - 1)}}}.Bytes())
+				var resp *harness.Resp
+				func() {
+					defer func() {
+						if p := recover(); p != nil {
+							fail("C08.panic", "%s build%d/rep%d: the request panicked: %v", what, b, r, p)
+						}
+					}()
+					resp = conns[b].Do(harness.Req{Method: op.method, Path: op.path, Headers: [][2]string{{"X-Op", strconv.Itoa(len(reqs) - 1)}}}.Bytes())
+				}()
+				if resp == nil {
+					return // the connection's context is in an unknown state after a panic
+				}
 				rq.status, rq.body = resp.Status, string(resp.Body)
 				var ran []string
 				for _, c := range rq.calls {
